@@ -27,7 +27,8 @@
 (*   text, "cum" / "one" the '^n' and '!1' tokens of the compact c.d.f. codec,   *)
 (*   "opt" a command line option, "raw" a token rewritten by a fault.            *)
 (* Special texts rendered by the harness: "<LONGD>" / "<LONGA>" a 10^6 character *)
-(*   run of digits / letters, "<WS>" blanks and tabs, "<BASE>" a scratch path.   *)
+(*   run of digits / letters, "<WS>" blanks and tabs, "<BASE>" a scratch path,   *)
+(*   "<NEARPREV>" / "<SAMEPREV>" the previous field's value + 3 ulp / unchanged. *)
 EXTENDS Integers, Sequences, FiniteSets, TLC
 
 CONSTANTS
@@ -66,7 +67,7 @@ NumLines(s) == Cardinality({i \in 1..Len(s) : LineStart(s, i)})
 (* Fault kinds *)
 
 PosKinds == {"truncate", "nonnumeric", "negative", "zero", "one", "hugecount", "overflow", "nan", "inf",
-             "missing", "extra", "long", "dupline", "dropline", "emptytok"}
+             "missing", "extra", "long", "dupline", "dropline", "emptytok", "nearprev", "sameprev"}
 DocKinds == {"empty", "wsonly", "crlf", "nofinalnl", "unknownopt"}
 
 (* Roles for which a huge-but-representable number is a legitimate (if expensive) *)
@@ -86,9 +87,12 @@ FaultText(k, t) ==
     [] k = "inf"        -> "inf"
     [] k = "long"       -> IF IsNum(t) THEN "<LONGD>" ELSE "<LONGA>"
     [] k = "emptytok"   -> ""
+    [] k = "nearprev"   -> "<NEARPREV>"      \* the value of the previous field plus a few units in the last place
+    [] k = "sameprev"   -> "<SAMEPREV>"      \* the text of the previous field (degenerate range)
     [] OTHER            -> Text(t)
 
-Rewrites == {"nonnumeric", "negative", "zero", "one", "hugecount", "overflow", "nan", "inf", "long", "emptytok"}
+Rewrites == {"nonnumeric", "negative", "zero", "one", "hugecount", "overflow", "nan", "inf", "long", "emptytok",
+             "nearprev", "sameprev"}
 
 (* Is fault k injectable at token i of the valid document of format f ? *)
 Applicable(f, k, i) ==
@@ -101,6 +105,7 @@ Applicable(f, k, i) ==
           [] k \in {"zero", "one"} -> Kind(t) = "count"
           [] k = "hugecount" -> Kind(t) \in {"int", "count", "cum"} /\ Role(t) \notin LegitHugeRoles
           [] k \in {"nan", "inf"} -> Kind(t) = "real"
+          [] k \in {"nearprev", "sameprev"} -> Kind(t) = "real" /\ i > 1 /\ Kind(s[i - 1]) = "real"
           [] k \in {"missing", "extra", "long"} -> ~IsNl(t)
           [] k \in {"dupline", "dropline"} -> ~argv /\ LineStart(s, i)
           [] k = "emptytok" -> argv
